@@ -2557,6 +2557,14 @@ def sensor_acc(m: Model, d: Data):
     ],
   )
 
+  # cutoff of the accumulated touch forces (POSITIVE datatype: min(force, cutoff)), as mj_sensorAcc does
+  wp.launch(
+    _tendon_actuator_force_cutoff,
+    dim=(d.nworld, m.sensor_touch_adr.size),
+    inputs=[m.sensor_type, m.sensor_datatype, m.sensor_adr, m.sensor_cutoff, m.sensor_touch_adr, d.sensordata],
+    outputs=[d.sensordata],
+  )
+
   weld_geom_count = wp.zeros((d.nworld, m.nbody), dtype=int)
   weld_geom_list = wp.full((d.nworld, m.nbody, MJ_MAXCONPAIR), -1, dtype=int)
   wp.launch(
